@@ -10,9 +10,7 @@ CONSTANTS
   M_NoLateChild = FALSE
   M_NoOrphanScan = FALSE
   M_NoExists = FALSE
-VIEW view
 CONSTRAINT ObsBound
-CONSTRAINT OnePending
 INVARIANTS TypeOK DeletedHasNoStorage NotIndexedOnceDeleted ChildrenFollowDone MirrorSound LoggedTombstoned NoOverDelete LiveStored
 PROPERTIES StatusMonotone NoStorageReappears AttemptsFail NeverReAdded ChildrenFollowLate SurvivesRestart DeletedIdsGrowOnly
 CHECK_DEADLOCK FALSE
